@@ -3,6 +3,17 @@
   Property theorems only; the model is XMT/Chunk.lean, lemmas are in XMT/ChunkLemmas.lean,
   XMT/ChunkOps.lean, XMT/ChunkSeq.lean.  All theorems hold for every allocator capacity
   function `cf` (Go's size classes are only used by the driver).
+
+  Scope notes (from an adversarial review of these statements, see DESIGN.md Appendix B.5):
+  * the Chunk model has no panic outcome: "no operation panics" is carried by the differential run
+    (the harness reports a panic of the real code as a failing input: this is how the negative
+    positional write was found and repaired) plus `pos_in_bounds` / `pos_negative_refused`.
+  * `QStep` says nothing for `seek` / positional writes beyond the invariant (`step_refines`); their
+    effect on the bytes is `writePos_spec` / `seek_spec` in XMT/ChunkOps.lean and the state-level
+    comparison of the differential run (full state incl. capacity after every op).
+  * `write_exact` allows "accept nothing and report the limit" whenever a limit is set; the code does
+    refuse a write that does not fit the room left by UNREAD + READ bytes (the limit counts the
+    buffer, not the queue): by design of `Limit`, visible in the model (`w40 r5 w3` under limit 40).
 -/
 import XMT.ChunkSeq
 import XMT.ChunkReadFrom
@@ -147,11 +158,21 @@ theorem write_exact (c : Chunk) (b : Bytes) (h : c.Inv) (c' : Chunk) (n : Nat) (
   obtain ⟨_, _, h3, h4, h5, h6⟩ := write_spec cf c b h c' n e hw
   exact ⟨h4, h3, h5, h6⟩
 
-/-- **No panic**: every index the Go code uses in a positional write lies inside the slice. -/
+/-- **No panic in a positional write**: the only indexing a positional write does happens on the
+branch that returns no error, and there every index the Go code uses (`c.buf[p] … c.buf[p+k]`) lies
+inside the slice. The branches that refuse are covered by `pos_negative_refused` (a negative position:
+`ErrInvalidIndex`, the chunk untouched — before the repair the Go code indexed `c.buf[p]` and
+panicked) and by the `eof` / `limit` returns of `writePos`, which index nothing. -/
 theorem pos_in_bounds (c : Chunk) (p : Int) (b : Bytes) (hb : 0 < b.length) (h : c.Inv)
     (c' : Chunk) (hok : writePos c p b = (c', none)) : 0 ≤ p ∧ p.toNat + b.length ≤ c.len :=
   let ⟨_, _, _, _, h5, _⟩ := writePos_spec c p b hb h c' none hok
   ⟨(h5 rfl).1, (h5 rfl).2.1⟩
+
+/-- a negative position is refused before anything is indexed; the chunk is untouched -/
+theorem pos_negative_refused (c : Chunk) (p : Int) (b : Bytes) (hp : p < 0) :
+    writePos c p b = (c, some .invalidIndex) := by
+  unfold writePos
+  simp [hp]
 
 /-- **`ReadFrom` under a limit reads exactly up to the limit** (this is what `Packet.readBody`
 relies on, C01): for every limit `0 < L ≤ MaxSlice`, every chunk at cursor 0, every stream and every
